@@ -68,7 +68,7 @@ struct C14 : Harness {
             g.o.invalid = true; g.o.midstream = true; g.o.lifecycle = true;
             int kind = *rc::gen::element((int)C128, (int)C64, (int)CM, (int)P128, (int)P64, (int)PM);
             auto bes = backends_for(kind);
-            g.add_slot(kind, *rc::gen::elementOf(bes));
+            g.add_slot(kind, *rc::gen::elementOf(bes), *rc::gen::element(0, 0, 0xFF, 0xA5, 0x01));
             int n = *irange(3, 36);
             for (int i = 0; i < n; ++i) g.step(0);
             // end with data so that damage done by the last invalid call is observable
